@@ -19,6 +19,7 @@ import (
 	"fmt"
 	"io"
 	"math/rand"
+	"runtime"
 	"strconv"
 	"strings"
 	"sync"
@@ -48,7 +49,14 @@ var cfgs = []capCfg{
 	{name: "rev1+rev2", caps: "IMAP4rev1 IMAP4rev2", litMinus: true, rev2: true},
 	{name: "rev1-utf8accept", caps: "IMAP4rev1 ENABLE UTF8=ACCEPT", utf8Avail: true},
 	{name: "rev1-utf8accept-literal-", caps: "IMAP4rev1 ENABLE UTF8=ACCEPT LITERAL-", utf8Avail: true, litMinus: true},
+	// UTF8=ONLY implies UTF8=ACCEPT (RFC 6855) but, like it, takes effect only once enabled
+	{name: "rev1-utf8only", caps: "IMAP4rev1 ENABLE UTF8=ACCEPT UTF8=ONLY", utf8Avail: true},
+	{name: "rev1-utf8only-literal+", caps: "IMAP4rev1 ENABLE UTF8=ONLY LITERAL+", utf8Avail: true, litPlus: true},
 }
+
+// downgraded is what the scripted server announces (untagged CAPABILITY while the client idles) in
+// the capability-change dialogues: everything optional is gone
+var downgraded = capCfg{name: "downgraded", caps: "IMAP4rev1 IDLE"}
 
 // reaction of the scripted server to a synchronising literal
 type reaction int
@@ -84,13 +92,20 @@ type server struct {
 	// response, 2 OK without any ENABLED response, 3 tagged NO, 4 tagged BAD (all conformant:
 	// a capability is enabled only if the server lists it in an ENABLED response)
 	enableMode int
-	cmdStart map[string]cmdInfo
-	done     chan struct{}
+	// cur is the capability set currently in force (cfg until a change is announced);
+	// changeInIdle makes the next IDLE announce `downgraded` once the client is idling
+	cur           capCfg
+	changeInIdle  bool
+	idleAnnounced chan struct{}
+	announceGo    chan struct{} // closed by the harness when the announcement may be sent
+	cmdStart      map[string]cmdInfo
+	done          chan struct{}
 }
 
 type cmdInfo struct {
-	start   int  // offset of the command's first byte in the client stream
-	enabled bool // UTF8=ACCEPT enabled when the command started
+	start   int    // offset of the command's first byte in the client stream
+	enabled bool   // UTF8=ACCEPT enabled when the command started
+	caps    capCfg // what the server had advertised (and the client had processed) when the command started
 }
 
 func (s *server) nextReaction() reaction {
@@ -137,7 +152,7 @@ func (s *server) serve() {
 		}
 		tag, name := f[0], strings.ToUpper(f[1])
 		s.mu.Lock()
-		s.cmdStart[tag] = cmdInfo{start: start, enabled: s.enabled}
+		s.cmdStart[tag] = cmdInfo{start: start, enabled: s.enabled, caps: s.cur}
 		s.mu.Unlock()
 		refused := false
 		// literals on this command line
@@ -191,9 +206,9 @@ func (s *server) serve() {
 		}
 		switch name {
 		case "LOGIN":
-			fmt.Fprintf(s.conn, "%s OK [CAPABILITY %s] logged in\r\n", tag, s.cfg.caps)
+			fmt.Fprintf(s.conn, "%s OK [CAPABILITY %s] logged in\r\n", tag, s.cur.caps)
 		case "CAPABILITY":
-			fmt.Fprintf(s.conn, "* CAPABILITY %s\r\n%s OK done\r\n", s.cfg.caps, tag)
+			fmt.Fprintf(s.conn, "* CAPABILITY %s\r\n%s OK done\r\n", s.cur.caps, tag)
 		case "ENABLE":
 			s.mu.Lock()
 			em := s.enableMode
@@ -224,6 +239,25 @@ func (s *server) serve() {
 			return
 		case "IDLE":
 			s.conn.Write([]byte("+ idling\r\n"))
+			s.mu.Lock()
+			change := s.changeInIdle
+			s.changeInIdle = false
+			s.mu.Unlock()
+			if change {
+				select {
+				case <-s.announceGo:
+				case <-time.After(25 * time.Second):
+				}
+				// announce the new capability set and let the client process it: from here on it
+				// is the advertised set for every command whose bytes are written later
+				s.client.WaitParked(20 * time.Second)
+				fmt.Fprintf(s.conn, "* CAPABILITY %s\r\n", downgraded.caps)
+				s.client.WaitParked(20 * time.Second)
+				s.mu.Lock()
+				s.cur = downgraded
+				s.mu.Unlock()
+				close(s.idleAnnounced)
+			}
 			if _, err := s.readLine(); err != nil {
 				return
 			}
@@ -307,7 +341,7 @@ type caseRes struct {
 func runCase(w *hx.W, rng *rand.Rand, cfg capCfg) {
 	log := &vconn.Log{}
 	cEnd, sEnd := vconn.Pipe("client", "server", log)
-	srv := &server{conn: sEnd, client: cEnd, br: bufio.NewReader(sEnd), cfg: cfg, log: log, cmdStart: map[string]cmdInfo{}, done: make(chan struct{})}
+	srv := &server{conn: sEnd, client: cEnd, br: bufio.NewReader(sEnd), cfg: cfg, log: log, cmdStart: map[string]cmdInfo{}, done: make(chan struct{}), cur: cfg, idleAnnounced: make(chan struct{}), announceGo: make(chan struct{})}
 	go srv.serve()
 	c := imapclient.New(cEnd, nil)
 	var steps []string
@@ -352,6 +386,54 @@ func runCase(w *hx.W, rng *rand.Rand, cfg capCfg) {
 	}
 	note("SELECT")
 	wait("SELECT", func() error { _, err := c.Select("INBOX", nil).Wait(); return err })
+	if (cfg.litPlus || cfg.litMinus || cfg.rev2) && rng.Intn(4) == 0 && !hung {
+		// capability change while the encoder is held by IDLE, with another command already
+		// submitted from a second goroutine: its bytes are written after the change was
+		// announced and processed, so they must be legal for the new set
+		qs := genStr(rng, []string{"utf8", "latin1", "badutf8", "long-utf8", "mix", "space"}[rng.Intn(6)])
+		note("IDLE; the server announces CAPABILITY %s; a SEARCH is queued behind the IDLE", downgraded.caps)
+		srv.mu.Lock()
+		srv.changeInIdle = true
+		srv.mu.Unlock()
+		var idle *imapclient.IdleCommand
+		wait("IDLE(begin)", func() error { var err error; idle, err = c.Idle(); return err })
+		if idle != nil && !hung {
+			// the second goroutine submits while the first one idles and BEFORE the change is
+			// announced; it can only write once the IDLE is over, i.e. after the change
+			queued := make(chan error, 1)
+			go func() {
+				_, err := c.Search(&imap.SearchCriteria{Body: []string{qs}}, nil).Wait()
+				queued <- err
+			}()
+			// let the queued command reach the encoder lock (affects only how often the window is hit)
+			for y := 0; y < 50; y++ {
+				runtime.Gosched()
+			}
+			time.Sleep(2 * time.Millisecond)
+			close(srv.announceGo)
+			select {
+			case <-srv.idleAnnounced:
+			case <-time.After(25 * time.Second):
+			}
+			wait("IDLE(end)", func() error {
+				if err := idle.Close(); err != nil {
+					return err
+				}
+				return idle.Wait()
+			})
+			select {
+			case <-queued:
+			case <-time.After(25 * time.Second):
+				if !hung {
+					hung = true
+					hangs++
+					w.Violation("command-hangs@queued-SEARCH/"+cfg.name, fmt.Sprintf("a SEARCH submitted while another goroutine was idling did not complete; steps %v", steps), nil)
+				}
+			}
+			settle()
+			w.Metric("capability_change_dialogues", 1)
+		}
+	}
 	for k := 2 + rng.Intn(5); k > 0; k-- {
 		sc := cls()
 		s1 := genStr(rng, sc)
@@ -490,8 +572,12 @@ func check(w *hx.W, cfg capCfg, srv *server, log *vconn.Log, steps []string) {
 		w.Metric("literals_observed", 1)
 		if l.nonSync {
 			w.Metric("nonsync_literals", 1)
-			if !(cfg.litPlus || (cfg.litMinus && l.size <= 4096)) {
-				viol("nonsync-literal-not-advertised", fmt.Sprintf("the client sent {%d+} in command %s", l.size, l.cmdTag), l.headerEnd)
+			cc := cfg
+			if ci, ok := cmdStart[l.cmdTag]; ok {
+				cc = ci.caps
+			}
+			if !(cc.litPlus || (cc.litMinus && l.size <= 4096)) {
+				viol("nonsync-literal-not-advertised", fmt.Sprintf("the client sent {%d+} in command %s (capabilities in force for it: %s)", l.size, l.cmdTag, cc.caps), l.headerEnd)
 			}
 			continue
 		}
@@ -538,9 +624,11 @@ func check(w *hx.W, cfg capCfg, srv *server, log *vconn.Log, steps []string) {
 		line := clientBytes[pos : pos+n]
 		f := bytes.Fields(line)
 		enabled := false
+		cc := cfg
 		if len(f) > 0 {
 			if ci, ok := cmdStart[string(f[0])]; ok {
 				enabled = ci.enabled
+				cc = ci.caps
 			}
 		}
 		scan := line
@@ -555,7 +643,7 @@ func check(w *hx.W, cfg capCfg, srv *server, log *vconn.Log, steps []string) {
 		if st.QuotedCtl {
 			viol("ctl-in-quoted-string", "CR, LF or NUL inside a quoted string", pos)
 		}
-		if st.Quoted8bit && !(cfg.rev2 || enabled) {
+		if st.Quoted8bit && !(cc.rev2 || enabled) {
 			viol("8bit-in-quoted-string", "8-bit bytes inside a quoted string although neither IMAP4rev2 is advertised nor UTF8=ACCEPT enabled", pos)
 		}
 		if st.BadEscape || st.UnterminatedQ || (st.Unbalanced && !refusedHere) {
@@ -569,7 +657,9 @@ func check(w *hx.W, cfg capCfg, srv *server, log *vconn.Log, steps []string) {
 					has8 = true
 				}
 			}
-			if has8 && !(cfg.rev2 || enabled) && !bytes.Contains(bytes.ToUpper(line), []byte("CHARSET UTF-8")) {
+			// (the CHARSET rule is not one of the property's explicit clauses: across a capability
+			// change it is judged against either set, the client decides on it before it queues)
+			if has8 && !(cc.rev2 || cfg.rev2 || enabled) && !bytes.Contains(bytes.ToUpper(line), []byte("CHARSET UTF-8")) {
 				viol("search-8bit-without-charset", "SEARCH with 8-bit strings but without CHARSET UTF-8", pos)
 			}
 			w.Metric("search_commands", 1)
@@ -618,9 +708,9 @@ func main() {
 	hx.Main(hx.Spec{
 		ID:    "C18",
 		Level: "exploration",
-		Rule: "dialogues against a scripted server for 7 capability sets (bare IMAP4rev1, LITERAL-, LITERAL+, IMAP4rev2, rev1+rev2, UTF8=ACCEPT enabled or not, with and without LITERAL-) x commands with string arguments from 21 classes (incl. 8-bit bytes followed by CR/LF/NUL and random mixtures) (NUL, CR, LF, CRLF+command text, quotes, 8-bit valid / invalid UTF-8, latin-1, lengths around 4096) x APPEND sizes {0,1,4095,4096,4097,10^5} x SEARCH with non-ASCII text x server reactions to synchronising literals {'+' at once, '+' after unrelated untagged data once the client is parked, tagged NO, tagged BAD}; distinct = distinct (capability set, dialogue)",
+		Rule:  "dialogues against a scripted server for 9 capability sets (bare IMAP4rev1, LITERAL-, LITERAL+, IMAP4rev2, rev1+rev2, UTF8=ACCEPT enabled or not, with and without LITERAL-, UTF8=ONLY with and without LITERAL+), a share of them with a capability downgrade announced while one goroutine idles and a second one has a SEARCH queued behind it, x commands with string arguments from 21 classes (incl. 8-bit bytes followed by CR/LF/NUL and random mixtures) (NUL, CR, LF, CRLF+command text, quotes, 8-bit valid / invalid UTF-8, latin-1, lengths around 4096) x APPEND sizes {0,1,4095,4096,4097,10^5} x SEARCH with non-ASCII text x server reactions to synchronising literals {'+' at once, '+' after unrelated untagged data once the client is parked, tagged NO, tagged BAD}; distinct = distinct (capability set, dialogue)",
 		Assumptions: []string{
-			"the advertised set is what the scripted server actually sent (greeting and LOGIN codes are identical within a dialogue); UTF8=ACCEPT counts from the command after the ENABLED response",
+			"the advertised set in force for a command is what the scripted server had sent, and the client had processed, before the command's first byte was written (greeting, LOGIN code, untagged CAPABILITY during IDLE); UTF8=ACCEPT (also when advertised as UTF8=ONLY) counts from the command after the ENABLED response that lists it",
 			"before every client command the harness waits until the client has processed everything the server sent",
 			"event order is the global order of writes on the in-process connection",
 		},
